@@ -47,6 +47,9 @@ var fixedVals map[string]int64
 // lemmasOff disables zzLemma (second pass when a helper lemma was not proved).
 var lemmasOff bool
 
+// invNoAssume: "Inv:" assertions are checked but not assumed afterwards.
+var invNoAssume bool
+
 func (e *Engine) intrinsic(st *State, fn *ssa.Function, name string, args []Value, caller *Frame, site ssa.Instruction) (Value, bool, *State) {
 	short := fn.Name()
 	if strings.HasPrefix(short, "zz") && fn.Pkg != nil {
@@ -92,7 +95,13 @@ func (e *Engine) intrinsic(st *State, fn *ssa.Function, name string, args []Valu
 			return nil, true, st
 		case "zzAssert":
 			c := args[0].(*Term)
-			e.addQuery("assert", concStr(args[1]), And(st.g, Not(c)), site)
+			lbl := concStr(args[1])
+			e.addQuery("assert", lbl, And(st.g, Not(c)), site)
+			if invNoAssume && strings.HasPrefix(lbl, "Inv:") {
+				// second pass after a broken invariant: do not assume it, so that its
+				// property-level consequences in later steps become visible
+				return nil, true, st
+			}
 			st.g = And(st.g, c)
 			if st.g.IsFalse() {
 				return nil, true, nil
